@@ -29,11 +29,14 @@ pub struct FragReader<'a> {
     pub pos: usize,
     pub interrupted_now: bool,
     pub reads: u32,
+    /// number of consecutive `Interrupted` results before every fragment when `interrupt` is set (default 1)
+    pub storm: u32,
+    pub storm_count: u32,
 }
 
 impl<'a> FragReader<'a> {
     pub fn new(data: &'a [u8], avail: usize, cuts: u32, interrupt: bool, fail: Fail) -> Self {
-        Self { data, avail, cuts, interrupt, fail, pos: 0, interrupted_now: false, reads: 0 }
+        Self { data, avail, cuts, interrupt, fail, pos: 0, interrupted_now: false, reads: 0, storm: 1, storm_count: 0 }
     }
 }
 
@@ -44,7 +47,11 @@ impl Read for FragReader<'_> {
             return Ok(0);
         }
         if self.interrupt && !self.interrupted_now {
-            self.interrupted_now = true;
+            self.storm_count += 1;
+            if self.storm_count >= self.storm {
+                self.interrupted_now = true;
+                self.storm_count = 0;
+            }
             return Err(io::Error::new(ErrorKind::Interrupted, "injected interruption"));
         }
         self.interrupted_now = false;
@@ -84,11 +91,13 @@ pub struct FragWriter {
     pub interrupt: bool,
     pub fail: Fail,
     pub interrupted_now: bool,
+    pub storm: u32,
+    pub storm_count: u32,
 }
 
 impl FragWriter {
     pub fn new(accept: usize, cuts: u32, interrupt: bool, fail: Fail) -> Self {
-        Self { sink: Vec::new(), accept, cuts, interrupt, fail, interrupted_now: false }
+        Self { sink: Vec::new(), accept, cuts, interrupt, fail, interrupted_now: false, storm: 1, storm_count: 0 }
     }
 }
 
@@ -98,7 +107,11 @@ impl Write for FragWriter {
             return Ok(0);
         }
         if self.interrupt && !self.interrupted_now {
-            self.interrupted_now = true;
+            self.storm_count += 1;
+            if self.storm_count >= self.storm {
+                self.interrupted_now = true;
+                self.storm_count = 0;
+            }
             return Err(io::Error::new(ErrorKind::Interrupted, "injected interruption"));
         }
         self.interrupted_now = false;
